@@ -252,9 +252,15 @@ impl<'a, K: HKey> Ctx<'a, K> {
             if !self.open_txs.is_empty() { return; }
             self.expect("close", "ok");
             self.op("trace");
-            let r = self.op("open");
-            if !r.starts_with("ok orphans=0 missing=0 corrupted=0 staging=0") {
-                self.fail(format!("C02: clean reopen reported `{r}`"));
+            if self.rng.chance(1, 3) {
+                // the plain entry point (its own integrity gate, stats dropped)
+                let r = self.op("openplain");
+                if r != "ok plain" { self.fail(format!("C02: clean reopen through Cas::open reported `{r}`")); }
+            } else {
+                let r = self.op("open");
+                if !r.starts_with("ok orphans=0 missing=0 corrupted=0 staging=0") {
+                    self.fail(format!("C02: clean reopen reported `{r}`"));
+                }
             }
         } else {
             // explicit transaction: begin now, finish or abort after other operations
